@@ -8,8 +8,14 @@ use std::panic::{self, AssertUnwindSafe};
 #[derive(Clone)]
 pub struct Rng(pub u64);
 impl Rng {
+    /// The initial state is the splitmix finalizer of the seed: with a plain affine
+    /// map, seed s+1 would be the stream of seed s shifted by one draw and different
+    /// seeds would regenerate almost the same cases.
     pub fn new(seed: u64) -> Rng {
-        Rng(seed.wrapping_mul(0x9E3779B97F4A7C15).wrapping_add(0x1234567))
+        let mut z = seed.wrapping_add(0x9E3779B97F4A7C15);
+        z = (z ^ (z >> 30)).wrapping_mul(0xBF58476D1CE4E5B9);
+        z = (z ^ (z >> 27)).wrapping_mul(0x94D049BB133111EB);
+        Rng(z ^ (z >> 31))
     }
     pub fn next(&mut self) -> u64 {
         self.0 = self.0.wrapping_add(0x9E3779B97F4A7C15);
